@@ -8,6 +8,7 @@ package main
 // into the caller's vocabulary by substituting parameters with the call's arguments.
 
 import (
+	"go/token"
 	"strconv"
 	"strings"
 	"go/types"
@@ -32,8 +33,54 @@ func (pc *passCuts) cut(from *ssa.BasicBlock, succ int) bool {
 	return succ < 2 && pc.edge[from][succ]
 }
 
+// resolveCallee: the static callee, also through a local closure variable that is assigned exactly once
+// (stop := func(){…}; … stop()), including when that variable is captured by the calling closure.
+func resolveCallee(cc *ssa.CallCommon) *ssa.Function {
+	if cc.IsInvoke() {
+		return nil
+	}
+	if h := cc.StaticCallee(); h != nil {
+		return h
+	}
+	ld, ok := cc.Value.(*ssa.UnOp)
+	if !ok || ld.Op != token.MUL {
+		return nil
+	}
+	return closureInCell(ld.X, 3)
+}
+
+func closureInCell(cell ssa.Value, depth int) *ssa.Function {
+	switch x := cell.(type) {
+	case *ssa.Alloc:
+		switch v := singleStore(x).(type) {
+		case *ssa.MakeClosure:
+			f, _ := v.Fn.(*ssa.Function)
+			return f
+		case *ssa.Function:
+			return v
+		}
+	case *ssa.FreeVar:
+		fnc := x.Parent()
+		if depth <= 0 || fnc == nil || fnc.Parent() == nil {
+			return nil
+		}
+		idx := -1
+		for i, fv := range fnc.FreeVars {
+			if fv == x {
+				idx = i
+			}
+		}
+		for _, in := range fnInstrs(fnc.Parent()) {
+			if mc, ok := in.(*ssa.MakeClosure); ok && mc.Fn == ssa.Value(fnc) && idx >= 0 && idx < len(mc.Bindings) {
+				return closureInCell(mc.Bindings[idx], depth-1)
+			}
+		}
+	}
+	return nil
+}
+
 func samePkgHelper(fn *ssa.Function, cc *ssa.CallCommon) *ssa.Function {
-	h := cc.StaticCallee()
+	h := resolveCallee(cc)
 	if h == nil || h.Pkg == nil || h.Pkg != fn.Pkg || len(h.Blocks) == 0 || h == fn {
 		return nil
 	}
